@@ -418,6 +418,18 @@ func (r *Run) DoCmd(c Cmd) *Proc {
 	post := r.observe()
 	logChanged := !bytes.Equal(pre.LogBytes, post.LogBytes)
 
+	if c.Loose {
+		pred = Pred{Class: Either}
+		r.W.Count.Inc("gen.loose_inputs")
+		if ok {
+			// whatever it did, it must have left a store on which every
+			// invariant holds; the model follows the observation
+			r.resync(post)
+			r.Resyncs--
+			r.afterStep(post)
+			return p
+		}
+	}
 	if !ok {
 		// the command failed (or crashed)
 		if pred.Class == MustOK && !ioFired {
